@@ -35,7 +35,7 @@ from typing import Any, Callable, Dict, Iterable, List, Optional, Tuple
 VERIF = os.path.dirname(os.path.dirname(os.path.abspath(__file__)))
 REPO = os.environ.get("SYNKIT_REPO", "/repo")
 NPROC = int(os.environ.get("VERIF_NPROC", "16"))
-MAX_DETAIL = 40  # violations kept with full detail per sub-check and worker
+MAX_DETAIL = 4  # violations kept with full detail per sub-check/tag and worker
 
 
 # --------------------------------------------------------------------------
@@ -96,6 +96,7 @@ class Fail:
     observed: str
     expected: str = ""
     key_extra: str = ""  # appended to the case key (e.g. a configuration)
+    key_class: str = ""  # if set, replaces the case key: a *class* of inputs named by a predicate on the input
 
 
 @dataclass
@@ -137,7 +138,7 @@ class Acc:
             name, {"cases": 0, "nontrivial": 0, "transitions": 0, "violations": 0}
         )
 
-    def add_case(self, subname: str, key: str, case: Any, out: Outcome, n_detail: List[int]):
+    def add_case(self, subname: str, key: str, case: Any, out: Outcome, n_detail: Dict[str, int]):
         s = self.sub(subname)
         self.evaluations += 1
         self.states += 1
@@ -156,14 +157,16 @@ class Acc:
             s["violations"] += 1
             v = {
                 "sub": f"{subname}/{f.tag}",
-                "key": key + (("|" + f.key_extra) if f.key_extra else ""),
+                "key": f.key_class or (key + (("|" + f.key_extra) if f.key_extra else "")),
                 "observed": f.observed,
                 "expected": f.expected,
             }
-            if n_detail[0] < MAX_DETAIL:
+            if f.key_class:
+                v["case_key"] = key
+            if n_detail.get(v["sub"], 0) < MAX_DETAIL:
                 v["case"] = case
                 v["subcheck"] = subname
-                n_detail[0] += 1
+                n_detail[v["sub"]] = n_detail.get(v["sub"], 0) + 1
             self.violations.append(v)
 
     def merge(self, o: "Acc"):
@@ -204,7 +207,7 @@ def _worker(args) -> Acc:
     acc = Acc()
     if sub.setup:
         sub.setup()
-    n_detail = [0]
+    n_detail: Dict[str, int] = {}
     n_samples = 0
     for i, case in enumerate(sub.gen(_TIER, _SEED)):
         if i % nshards != shard:
@@ -298,14 +301,16 @@ def finish(
 ) -> int:
     known = load_known(prop)
     new, listed = [], {}
+    listed_n: Counter = Counter()
     for v in acc.violations:
         k = match_known(v, known)
         if k is not None:
             listed.setdefault((k["sub"], k["key"]), (k, v))
+            listed_n[(k["sub"], k["key"])] += 1
         else:
             new.append(v)
     for (sub, key), (k, v) in sorted(listed.items()):
-        print(f"KNOWN-FINDING: property={prop} {sub} {key}: {k.get('what', v['observed'])}")
+        print(f"KNOWN-FINDING: property={prop} {sub} {key}: {k.get('what', v['observed'])} [{listed_n[(sub, key)]} case(s) this run]")
 
     # deterministic order, write replays for the first few new violations
     new.sort(key=lambda v: (v["sub"], v["key"]))
@@ -356,7 +361,7 @@ def finish(
         "caps_hit": acc.caps,
         "per_subcheck": acc.per_sub,
         "skipped_by_reason": dict(acc.skipped),
-        "known_findings_seen": [f"{s} {k}" for (s, k) in sorted(listed)],
+        "known_findings_seen": [f"{s} {k} x{listed_n[(s, k)]}" for (s, k) in sorted(listed)],
         "new_violations_by_subcheck": dict(by_sub),
         "repo": repo_head(),
         "nproc": NPROC,
@@ -407,7 +412,7 @@ def bfs_explore(
     acc = Acc()
     seen = {"<init>"}
     frontier: List[Tuple] = [()]
-    n_detail = [0]
+    n_detail: Dict[str, int] = {}
     for d in range(depth):
         results = pmap(expand, frontier, nproc=nproc, chunksize=max(1, len(frontier) // (nproc * 8)))
         nxt = []
@@ -428,10 +433,10 @@ def bfs_explore(
                         "observed": f.observed,
                         "expected": f.expected,
                     }
-                    if n_detail[0] < MAX_DETAIL:
+                    if n_detail.get(v["sub"], 0) < 8:
                         v["case"] = {"history": list(hist) + [op]}
                         v["subcheck"] = sub
-                        n_detail[0] += 1
+                        n_detail[v["sub"]] = n_detail.get(v["sub"], 0) + 1
                     acc.violations.append(v)
                 if key is None:  # operation refused (documented exception): no new state
                     continue
